@@ -87,6 +87,11 @@ impl SwiftField for Field59F {
 
         // Check for party identifier on first line
         if let Some(party_id) = parse_party_identifier(lines[0])? {
+            if party_id.is_empty() {
+                return Err(ParseError::InvalidFormat {
+                    message: "Field 59F party identifier must not be empty after '/'".to_string(),
+                });
+            }
             party_identifier = Some(party_id);
             start_idx = 1;
         }
@@ -120,9 +125,12 @@ impl SwiftField for Field59F {
             }
 
             let content = &line[2..];
-            if content.len() > 33 {
+            if content.is_empty() || content.len() > 33 {
                 return Err(ParseError::InvalidFormat {
-                    message: format!("Field 59F line {} content exceeds 33 characters", line_num),
+                    message: format!(
+                        "Field 59F line {} content must be 1 to 33 characters",
+                        line_num
+                    ),
                 });
             }
 
@@ -188,6 +196,11 @@ impl SwiftField for Field59A {
         // Check if first line is account (/...)
         if lines[0].starts_with('/') {
             let identifier = &lines[0][1..];
+            if identifier.is_empty() {
+                return Err(ParseError::InvalidFormat {
+                    message: "Field 59A account must not be empty after '/'".to_string(),
+                });
+            }
             if identifier.len() <= 34 {
                 parse_swift_chars(identifier, "Field 59A account")?;
                 account = Some(identifier.to_string());
@@ -206,6 +219,14 @@ impl SwiftField for Field59A {
             });
         }
 
+        if lines.len() > bic_line_idx + 1 {
+            return Err(ParseError::InvalidFormat {
+                message: format!(
+                    "Field 59A has {} line(s) after the BIC",
+                    lines.len() - bic_line_idx - 1
+                ),
+            });
+        }
         let bic = parse_bic(lines[bic_line_idx])?;
 
         Ok(Field59A { account, bic })
